@@ -1,39 +1,66 @@
-(* C19/Props.v : the property theorems (statements only; proofs are in Proofs.v / Traj.v).
+(* C19/Props.v : the property theorems (statements only; proofs are in Proofs.v / ProofsFixed.v / Traj.v).
 
-   Model: C19/Model.v (tied to /repo on every run by harness/c19.py, exact structural
-   correspondence of NoiseModel.apply(circuit).queue and circuit.with_pauli_noise(map).queue).
+   Models: C19/ModelFixed.v = the REPAIRED NoiseModel.apply now in /repo (before / after lists, the gate added
+   exactly once, a fresh copy of every measurement gate), C19/Model.v = Circuit.add bookkeeping, rule lookup,
+   error dispatch, with_pauli_noise, _Conditions, IBMQNoiseModel.from_dict -- and the ORIGINAL apply, kept for the
+   historical lemmas.  Tied to /repo on every run by harness/c19.py (exact structural correspondence of
+   NoiseModel.apply(circuit).queue and circuit.with_pauli_noise(map).queue; the harness detects which apply is
+   in /repo and a return of the old behaviour is a VIOLATION).
 
    Reading guide
    - [spec_apply rules c] is the property text: for every gate of c in order, the gate itself followed by
      the channels of the rules that fire on it; a measurement is PRECEDED by the channels of its readout
-     rules and followed by the others ([spec_block]).  [noise_apply_channels_local]: these channels act on a subset of the trigger's
-     qubits (CustomError channels excepted: they are the user's fixed channel object).
-   - FULL-STRENGTH STATEMENTS ARE FALSE of the faithful model (and of qibo): *_refuted.
-     [noise_apply_exact_partial] / [noise_apply_skeleton_partial] hold on the inputs described by
-     [clean] (Model.v): readout rules only on measurement classes, only readout rules on measurement
-     classes, at most one readout rule firing per measurement (and none naming exactly its qubits
-     without firing), no measurement with collapse=True, measured qubits not touched again,
-     distinct register names, custom channels inside the trigger's qubits.
-   - [noise_apply_repeats] is unconditional: whatever the rules, apply only ever repeats or drops
-     input gates (order kept). *)
+     rules and followed by the others ([spec_block]).  [noise_apply_channels_local]: these channels act on a
+     subset of the trigger's qubits (CustomError channels excepted: they are the user's fixed channel object).
+   - FULL STRENGTH, all circuits and all rule lists: [noise_apply_exact], [noise_apply_skeleton],
+     [noise_apply_no_keyerror].
+   - HISTORICAL (about the algorithm that was in qibo before the repair, Model.apply): the full-strength
+     statements were false of it ([historical_*_fails]); it was exact only on the [clean] inputs. *)
 From Coq Require Import List Bool Arith QArith ZArith Ring.
-From QV Require Import C19.Model C19.Proofs C19.Traj.
+From QV Require Import C19.Model C19.Proofs C19.ModelFixed C19.ProofsFixed C19.Traj.
 Import ListNotations.
 Local Close Scope Q_scope.
 Local Open Scope nat_scope.
 
-(* ---------------------------------------------------------------- NoiseModel.apply *)
-Theorem noise_apply_exact_partial : forall rules coll0 c,
+(* ---------------------------------------------------------------- NoiseModel.apply (the repaired code): FULL STRENGTH *)
+(* whatever the rules (any keys, qubit subsets, conditions, error types) and the circuit (mid-circuit and repeated
+   measurements, pre-existing channels): if apply returns, its queue is exactly what the property prescribes *)
+Theorem noise_apply_exact : forall rules coll0 c out,
+  apply2 rules coll0 c = Some out -> out = spec_apply rules c.
+Proof. exact apply2_exact. Qed.
+Print Assumptions noise_apply_exact.
+
+Theorem noise_apply_skeleton : forall rules coll0 c out,
+  apply2 rules coll0 c = Some out -> erase out = c.
+Proof. exact apply2_skeleton. Qed.
+Print Assumptions noise_apply_skeleton.
+
+(* and it always returns (no register-name KeyError) on a circuit that could be built in the first place *)
+Theorem noise_apply_no_keyerror : forall rules coll0 c,
+  build_st coll0 c <> None -> apply2 rules coll0 c = Some (spec_apply rules c).
+Proof. exact apply2_total. Qed.
+Print Assumptions noise_apply_no_keyerror.
+
+Example noise_apply_two_readout_now :
+  show (apply2 two_readout [] [gH; gM01]) = Some [(0, [0], 0); (7, [0], 0); (7, [1], 0); (0, [1], 0)].
+Proof. vm_compute. reflexivity. Qed.
+
+(* non-vacuity: the example circuit below can be built, and apply2 returns on it *)
+Example build_example : build_st [] [gH; gM01] <> None.
+Proof. vm_compute. discriminate. Qed.
+
+(* ---------------------------------------------------------------- HISTORICAL: the algorithm before the repair (Model.apply) *)
+Theorem historical_old_apply_exact_on_clean : forall rules coll0 c,
   clean rules coll0 c = true ->
   apply rules coll0 c = Some (spec_apply rules c) /\
   option_map s_coll (apply_st rules coll0 c) = Some coll0.      (* collapse flags of the shared M objects unchanged *)
 Proof. exact apply_exact_clean. Qed.
-Print Assumptions noise_apply_exact_partial.
+Print Assumptions historical_old_apply_exact_on_clean.
 
-Theorem noise_apply_skeleton_partial : forall rules coll0 c,
+Theorem historical_old_apply_skeleton_on_clean : forall rules coll0 c,
   clean rules coll0 c = true -> option_map erase (apply rules coll0 c) = Some c.
 Proof. exact apply_skeleton_clean. Qed.
-Print Assumptions noise_apply_skeleton_partial.
+Print Assumptions historical_old_apply_skeleton_on_clean.
 
 (* erasing the channels from what the property prescribes gives back the circuit *)
 Theorem spec_apply_skeleton : forall rules c, erase (spec_apply rules c) = c.
@@ -63,11 +90,11 @@ Proof.
 Qed.
 Print Assumptions noise_apply_channels_prescribed.
 
-Theorem noise_apply_repeats : forall rules coll0 c out,
+Theorem historical_old_apply_repeats : forall rules coll0 c out,
   apply rules coll0 c = Some out ->
   exists ks, length ks = length c /\ erase out = expand c ks.
 Proof. exact apply_repeats. Qed.
-Print Assumptions noise_apply_repeats.
+Print Assumptions historical_old_apply_repeats.
 
 (* non-vacuity of [clean]: H(0) CNOT(1,0) RX(2) M(0,1) M(2); Pauli noise on every gate restricted to
    qubits {0,2}, depolarizing on two-qubit gates, one readout rule on qubit 0 and one on qubit 2 *)
@@ -84,41 +111,41 @@ Example clean_example_output :
         (7, [0], 0); (0, [3], 0); (7, [2], 0); (0, [4], 0)].
 Proof. vm_compute. reflexivity. Qed.
 
-(* ---------------------------------------------------------------- full strength: refuted *)
-Theorem noise_apply_skeleton_refuted :
+(* ---------------------------------------------------------------- HISTORICAL: what was false of the old algorithm *)
+Theorem historical_old_apply_skeleton_fails :
   exists rules coll0 c, option_map erase (apply rules coll0 c) <> Some c.
 Proof. exists two_readout, [], [gH; gM01]. exact skeleton_refuted_two_readout. Qed.
-Print Assumptions noise_apply_skeleton_refuted.
+Print Assumptions historical_old_apply_skeleton_fails.
 
-Theorem noise_apply_exact_refuted :
+Theorem historical_old_apply_exact_fails :
   exists rules coll0 c, apply rules coll0 c <> Some (spec_apply rules c).
 Proof. exists two_readout, [], [gH; gM01]. exact exact_refuted_two_readout. Qed.
-Print Assumptions noise_apply_exact_refuted.
+Print Assumptions historical_old_apply_exact_fails.
 
 (* two readout rules on one measurement: RE(0) M RE(1) M M, and M.collapse becomes True *)
-Theorem noise_apply_two_readout_refuted :
+Theorem historical_old_apply_two_readout :
   show_st (apply_st two_readout [] [gH; gM01]) =
   Some ([(0, [0], 0); (7, [0], 0); (0, [1], 0); (7, [1], 0); (0, [1], 0); (0, [1], 0)], [], [1]).
 Proof. exact two_readout_output. Qed.
-Print Assumptions noise_apply_two_readout_refuted.
+Print Assumptions historical_old_apply_two_readout.
 
-Theorem noise_apply_input_mutated_refuted :
+Theorem historical_old_apply_mutates_input :
   exists rules coll0 c, option_map s_coll (apply_st rules coll0 c) <> Some coll0.
 Proof. exists two_readout, [], [gH; gM01]. exact mutation_refuted_two_readout. Qed.
-Print Assumptions noise_apply_input_mutated_refuted.
+Print Assumptions historical_old_apply_mutates_input.
 
 (* the EMPTY noise model duplicates a collapsing measurement *)
-Theorem noise_apply_empty_model_refuted :
+Theorem historical_old_apply_empty_model_duplicates :
   option_map erase (apply [] [0] [gM0; gH1; gM2]) = Some [gM0; gM0; gH1; gM2].
 Proof. exact skeleton_refuted_empty_model. Qed.
-Print Assumptions noise_apply_empty_model_refuted.
+Print Assumptions historical_old_apply_empty_model_duplicates.
 
 (* a readout rule naming exactly the measured qubits whose condition is false drops the measurement *)
-Theorem noise_apply_dropped_measurement_refuted :
+Theorem historical_old_apply_drops_measurement :
   option_map erase (apply [mkRule (Some 1) [fun _ => false] (EReadout 0) (Some [0])] [] [gH; mkGate 1 1 KM [0] 0])
   = Some [gH].
 Proof. exact skeleton_refuted_dropped. Qed.
-Print Assumptions noise_apply_dropped_measurement_refuted.
+Print Assumptions historical_old_apply_drops_measurement.
 
 (* ---------------------------------------------------------------- with_pauli_noise *)
 Theorem pauli_noise_ok : forall nq m c out,
